@@ -62,7 +62,29 @@ type evCluster struct {
 	nodes   map[uint64]*evNode
 	calls   map[[2]uint64]*evCall // the latest call per link
 	leaders int
-	lost    bool // the script lost control of the cluster's timing: it ends
+	lost    bool                 // the script lost control of the cluster's timing: it ends
+	driven  map[uint64]*evDriven // by goroutine id: replicateTo calls run by the script (component 102)
+}
+
+// one replicateTo(follower, lastIndex) call run by the script in its own goroutine
+type evDriven struct {
+	from, to, last uint64
+	inst           int
+	req            *raft.AppendEntriesRequest
+	parked         chan struct{}                    // a request was built and waits in the transport
+	verdict        chan *raft.AppendEntriesResponse // the follower's answer, or nil: the call fails
+	done           chan struct{}                    // replicateTo returned
+}
+
+func goid() uint64 {
+	var buf [64]byte
+	n := runtime.Stack(buf[:], false)
+	f := strings.Fields(string(buf[:n]))
+	if len(f) < 2 {
+		return 0
+	}
+	id, _ := strconv.ParseUint(f[1], 10, 64)
+	return id
 }
 
 type evTrans struct {
@@ -84,7 +106,29 @@ func (t *evTrans) AppendEntriesPipeline(id raft.ServerID, target raft.ServerAddr
 	return nil, raft.ErrPipelineReplicationNotSupported
 }
 func (t *evTrans) AppendEntries(id raft.ServerID, target raft.ServerAddress, args *raft.AppendEntriesRequest, resp *raft.AppendEntriesResponse) error {
-	return errEv
+	// component 102: a replicateTo call driven by the script parks here until the script returns
+	// the follower's answer or makes the call fail; the server's own replication goroutines never get through
+	c := t.c
+	if c.driven == nil {
+		return errEv
+	}
+	c.mu.Lock()
+	d := c.driven[goid()]
+	c.mu.Unlock()
+	if d == nil {
+		return errEv
+	}
+	// replicateTo reuses one request variable for all its iterations: keep a copy
+	cp := *args
+	cp.Entries = append([]*raft.Log(nil), args.Entries...)
+	d.req = &cp
+	d.parked <- struct{}{}
+	v := <-d.verdict
+	if v == nil {
+		return errEv
+	}
+	*resp = *v
+	return nil
 }
 func (t *evTrans) InstallSnapshot(id raft.ServerID, target raft.ServerAddress, args *raft.InstallSnapshotRequest, resp *raft.InstallSnapshotResponse, data io.Reader) error {
 	return errEv
